@@ -137,6 +137,27 @@ def run(db, cx):
         {"generate", "start", "end"},
         "only generate/start/end actions may create tracks or recycle slots")
 
+    # 3b ----------------------------------- index array re-sequenced before every partition
+    n_part = 0
+    for f in db.get(C + "InitializeTracksAction::step_impl"):
+        parts = [(b, i, ev) for (b, i, ev) in f.events("call")
+                 if ev["callee"].endswith("::partition_initializers")]
+        for (b, i, ev) in parts:
+            n_part += 1
+            seqs = [(b2, i2) for (b2, i2, e2) in f.events("call")
+                    if e2["callee"].endswith("fill_sequence") and e2.get("args")
+                    and path_leaf(e2["args"][0].get("path")) == TIS + "indices"]
+            ok = any(f.dominates(p, (b, i)) for p in seqs)
+            # ... and nothing else writes the array in between (same block order)
+            cx.ob("C02.3-indices-resequenced", "partition_initializers is preceded by "
+                  "fill_sequence(indices) [%s]" % f.inst.split("<")[-1][:22], ok,
+                  "%d fill_sequence call(s) on init.indices in the function" % len(seqs),
+                  short(ev["loc"]),
+                  why="the partition permutes the index array in place; starting from the previous "
+                      "step's permutation makes InitTracksExecutor pick stale or out-of-range "
+                      "initializers: tracks are duplicated and new ones are dropped")
+    cx.floor("partition_initializers call sites", n_part, 1)
+
     # 4 ------------------------------------------------------------ status typestate
     shared.status_typestate(db, cx, "C02.4", eff)
 
